@@ -112,7 +112,14 @@ def run_property(prop, tier="quick", seed=0, patch=None, quiet=False, only_units
                 elif r.status == "failed":
                     for desc, loc in r.failed_checks:
                         m = re.match(r"(C\d\d\.[\w.]+)", desc)
-                        ob_id = m.group(1) if m else "%s.implicit.%s" % (r.h.unit, _safe(desc)[:60])
+                        if m:
+                            ob_id = m.group(1)
+                        else:
+                            kind = desc
+                            if desc.startswith("This is a placeholder message"):
+                                kind = "panic"   # panic!/unwrap/expect with a formatted message
+                            where = loc.rsplit(" in ", 1)[-1].rsplit("::", 1)[-1] if " in " in loc else ""
+                            ob_id = "%s.implicit.%s@%s" % (r.h.unit, _safe(kind)[:50], _safe(where)[:40])
                         p = prop_of_obligation(ob_id, r.h.kv.get("implicit", r.h.props[0])) if m else r.h.kv.get("implicit", r.h.props[0])
                         fl = Failure(p, ob_id, r.h.unit, "kani", "%s @ %s" % (desc, loc))
                         fl.harness = r.h
@@ -238,6 +245,15 @@ def evidence(prop, tier, seed, res, verdict, known_matched, violations, manifest
             ob_total += n_named + nfn + n_impl_failed
             ob_dis += n_named - n_failed_named + (nfn if u.status == "ok" else max(0, nfn - n_impl_failed - (1 if n_failed_named else 0)))
         if u.gen:
+            # mechanical scan of the generated file: every trusted item is listed
+            ext = re.findall(r"#\[verifier::external_body\]\s*(?:pub\s+)?(?:open\s+|closed\s+)?(?:spec\s+|proof\s+|exec\s+)?fn\s+(\w+)", u.gen.text)
+            unint = re.findall(r"uninterp\s+spec\s+fn\s+(\w+)", u.gen.text)
+            entry["scan"] = {"external_body_fns": ext, "uninterpreted_spec_fns": unint,
+                             "assume_or_admit": len(re.findall(r"\b(assume|admit)\s*\(", u.gen.text)),
+                             "assume_specification": len(re.findall(r"assume_specification", u.gen.text)),
+                             "unsafe_blocks": len(re.findall(r"\bunsafe\b", u.gen.text))}
+            if ext:
+                assumptions.append("%s: trusted (external_body) helpers in the generated file: %s" % (u.unit, ", ".join(ext)))
             fns.append(u.gen.meta.get("fn", ""))
             drops += u.gen.drops
             for oid, txt in u.gen.outlines:
